@@ -470,4 +470,69 @@ theorem retrieve_set_nil (env : Env) (root : Val) (ch : List N) (prev : Info) (c
     App (SetIs (endsSome ch aloc.isSome)) st st' :=
   retrieve_appends env (nilHoare root _) ch prev cur aloc st st' e rfl h
 
+
+/-! ### locations above and below the one written -/
+
+/-- a location at or below the one written reads from the new value -/
+theorem getAt_setAt_below {d' x : Val} {loc : Loc} (h : d'.getAt loc = some x) (s : Loc) :
+    d'.getAt (loc ++ s) = x.getAt s := by
+  rw [getAt_append, h]; rfl
+
+/-- a location above the one written holds its old value with the rest of the location written -/
+theorem getAt_setAt_above : ∀ (p q : Loc) (d d' u x : Val), d.setAt (p ++ q) x = some d' → d.getAt p = some u →
+    ∃ u', u.setAt q x = some u' ∧ d'.getAt p = some u'
+  | [], q, d, d', u, x, hs, hg => by
+    rw [getAt_nil] at hg
+    cases hg
+    exact ⟨d', hs, getAt_nil d'⟩
+  | s :: p, q, d, d', u, x, hs, hg => by
+    cases d with
+    | obj kvs =>
+      cases s with
+      | key k =>
+        rw [List.cons_append, setAt_key] at hs
+        rw [getAt_key] at hg
+        cases hl : Val.lookup k kvs with
+        | none => rw [hl] at hg; cases hg
+        | some w =>
+          rw [hl] at hs hg
+          simp only [Option.bind_some] at hs hg
+          cases hw : w.setAt (p ++ q) x with
+          | none => rw [hw] at hs; cases hs
+          | some w' =>
+            rw [hw] at hs
+            simp only [Option.map_some, Option.some.injEq] at hs
+            subst hs
+            obtain ⟨u', hu, hg'⟩ := getAt_setAt_above p q w w' u x hw hg
+            refine ⟨u', hu, ?_⟩
+            rw [getAt_key, lookup_updKV_self k w' kvs w hl]
+            exact hg'
+      | idx i => simp [Val.getAt] at hg
+    | arr xs =>
+      cases s with
+      | idx i =>
+        rw [List.cons_append, setAt_idx] at hs
+        rw [getAt_idx] at hg
+        cases hl : xs[i]? with
+        | none => rw [hl] at hg; cases hg
+        | some w =>
+          rw [hl] at hs hg
+          simp only [Option.bind_some] at hs hg
+          have hi : i < xs.length := by
+            rcases Nat.lt_or_ge i xs.length with hi | hi
+            · exact hi
+            · rw [List.getElem?_eq_none hi] at hl; cases hl
+          cases hw : w.setAt (p ++ q) x with
+          | none => rw [hw] at hs; cases hs
+          | some w' =>
+            rw [hw] at hs
+            simp only [Option.map_some, Option.some.injEq] at hs
+            subst hs
+            obtain ⟨u', hu, hg'⟩ := getAt_setAt_above p q w w' u x hw hg
+            refine ⟨u', hu, ?_⟩
+            rw [getAt_idx, List.getElem?_set_self hi]
+            exact hg'
+      | key k => simp [Val.getAt] at hg
+    | _ => simp [Val.getAt] at hg
+
 end JPV
